@@ -1669,9 +1669,71 @@ def _generator_floors(ctx):
         ctx.notes.append(msg)
 
 
+# ---------------------------------------------------------------------------
+# part L: objects the way an object store hands them out (parsed from raw bytes, the name they were looked up by cached)
+
+
+def _loaded_case():
+    from hypothesis import strategies as st
+
+    tfs = [("blob", "sha1"), ("tree", "sha1"), ("tree", "sha256"), ("commit", "sha1"), ("commit", "sha256"), ("tag", "sha1"), ("tag", "sha256")]
+    return st.one_of([st.tuples(st.just(t), st.just(f), gen.records(t, f)) for t, f in tfs])
+
+
+def judge_loaded(ctx, value, check="loaded"):
+    """A store of either hash format caches the name it found the object under; an explicit request for the name in a
+    given format must still be the hash of type, length and content in THAT format, in every state of the object."""
+    import hashlib
+
+    typ, fmt, rec = value
+    return judge_loaded_raw(ctx, typ, fmt, ref.serialise(rec), check)
+
+
+def judge_loaded_raw(ctx, typ, fmt, raw, check="loaded"):
+    import hashlib
+
+    d = _d()
+    type_num = {"commit": 1, "tree": 2, "blob": 3, "tag": 4}[typ]
+    of = {"sha1": d.SHA1, "sha256": d.SHA256}
+    want = {f: hashlib.new(f, typ.encode() + b" " + str(len(raw)).encode() + b"\0" + raw).hexdigest().encode() for f in of}
+    case = dict(type=typ, fmt=fmt, raw=raw)
+    # a tree's entry ids have the length of the repository's format: it can only live in a store of that format
+    stores = [fmt] if typ == "tree" else ["sha1", "sha256"]
+    for store_fmt in stores:
+        try:
+            o = d.o.ShaFile.from_raw_string(type_num, raw, sha=want[store_fmt], object_format=of[store_fmt])
+        except Exception as e:
+            ctx.label(f"loaded:parse-refused:{type(e).__name__}")
+            continue
+        for state in ("fresh", "after-copy", "after-raw"):
+            if state == "after-copy":
+                try:
+                    o = o.copy()
+                except Exception:
+                    break
+            elif state == "after-raw":
+                o.as_raw_string()
+            for ask in ("sha1", "sha256"):
+                for how, fn in (("get_id", lambda: o.get_id(of[ask])), ("sha", lambda: o.sha(of[ask]).hexdigest().encode())):
+                    try:
+                        got = fn()
+                    except Exception as e:
+                        got = f"raises {type(e).__name__}"
+                    if got != want[ask]:
+                        ctx.fail(f"C01:loaded:{typ}:{how}({ask})-of-object-from-{store_fmt}-store", f"{typ} loaded from a {store_fmt} store under its name ({state}): {how}({ask}) -> {got!r}, "
+                                 f"the {ask} of type, length and content is {want[ask]!r}", check, case)
+                        return
+    ctx.case(("loaded", typ, fmt, raw), nontrivial=True, labels=("loaded", f"loaded:{typ}:{fmt}"))
+
+
+def _part_loaded(ctx, n):
+    run_hypothesis(ctx, _loaded_case(), judge_loaded, max_examples=n)
+
+
 def run(ctx):
     selftest(ctx)
     ctx.note("git_version", cgit.version())
+    ctx.parallel(_part_loaded, [ctx.scale(120, 4000)] * 16)
     import time  # part timings are evidence only (budget tuning); no oracle reads the clock
 
     for name, fn, n in (("machine", _part_machine, ctx.scale(220, 6500)), ("records", _part_records, ctx.scale(60, 2500)),
@@ -1695,6 +1757,8 @@ def replay(ctx, check, case):
 
         return fuzz.replay(ctx, case, check)
     _d()
+    if check == "loaded":
+        return judge_loaded_raw(ctx, case["type"], case["fmt"], case["raw"])
     if check == "machine":
         case = dict(case)
         case["start"] = tuple(case["start"])
